@@ -251,3 +251,42 @@ func ZZVerifC19Concurrent() {
 	}
 	nd.Reach("C19/concurrent-end")
 }
+
+// ZZVerifC19Broken: one template file with a syntax error in view v's directory,
+// in the layout directory or among the helpers; R requests in any order with
+// caching on or off. A request whose template depends on the broken file
+// fails every time it is asked (a failed build is never answered later from
+// the cache with a partial template); the other requests are unaffected.
+func ZZVerifC19Broken() {
+	zzFixed = true
+	w := zzBuildWorld()
+	zzFixed = false
+	where := nd.Choose("broken-file-in", 3) // 0 view v, 1 layout, 2 helpers
+	path := []string{"views/v/zz.tmpl", "layouts/L/zz.tmpl", "helpers/zz.tmpl"}[where]
+	nd.Assume(w.fs.WriteFile(path, []byte("{{define \"x\"}}a{{end}}{{"), filesystem.DefaultUnixFileMode) == nil)
+	cached := nd.Choose("cached", 2) == 1
+	p := NewProvider(w.fs, "helpers", "layouts/{name}", "views/{name}", ".tmpl", nil, cached)
+	reqs := nd.Param("BR", 3)
+	for i := 0; i < reqs; i++ {
+		switch nd.Choose("request", 3) {
+		case 0:
+			name := zzViewName("view")
+			got, ok := zzViewTable(p, name)
+			if name == "v" || where != 0 {
+				nd.Assert(!ok, "C19/broken-view-fails-every-time")
+			} else {
+				nd.Assert(ok, "C19/view-builds-beside-broken-view")
+				if ok {
+					nd.Assert(got == w.expectView("w"), "C19/view-layering-beside-broken-view")
+				}
+			}
+		case 1:
+			_, ok := zzLayoutTable(p)
+			nd.Assert(ok == (where == 0), "C19/layout-fails-iff-it-depends-on-broken-file")
+		case 2:
+			_, ok := zzBaseTable(p)
+			nd.Assert(ok == (where != 2), "C19/base-fails-iff-helpers-broken")
+		}
+	}
+	nd.Reach("C19/broken-end")
+}
